@@ -44,6 +44,9 @@ CNBad(e) == IF e.open # "ok" THEN "open_failed"
             ELSE IF e.fail < 0 /\ e.lasts # 1 THEN "no_end_marker"
             ELSE IF ~e.after_last_only_errors THEN "reply_after_end_marker"
             ELSE ""
+\* a library pull whose stream was released from another connection half-way (ValueStream!CCancel, AfterCancelError): an
+\* error, or - the release having lost the race - the complete content; never a prefix returned as the value
+RelBad(e) == IF e.open # "ok" THEN "open_failed" ELSE IF e.ok /\ ~e.equal THEN "prefix_returned_after_release" ELSE ""
 PullBad(e) == IF e.fail >= 0 /\ e.fail < e.n THEN (IF e.ok THEN "value_from_failed_stream" ELSE "")
               ELSE IF e.fail >= 0 THEN "" \* failure exactly at the end: either outcome
               ELSE IF ~e.ok THEN "pull_failed" ELSE IF ~e.equal THEN "bytes_differ" ELSE ""
@@ -52,7 +55,7 @@ ExpectedSizes(n, c) == [i \in 1..((n + c - 1) \div c) |-> IF i * c <= n THEN c E
 Drift(e) == IF e.ev = "raw" /\ e.open = "ok" /\ e.comp = 0 /\ e.fail < 0 /\ ~e.cancelled /\ e.n > 0 /\ e.producer \in {"writer", "reader"}
                /\ [i \in 1..Len(e.replies) |-> e.replies[i][1]] # ExpectedSizes(e.n, e.chunk) THEN "chunk_sizes" ELSE ""
 Step == /\ l <= Len(Rec) /\ l' = l + 1
-        /\ LET k == IF E.ev = "raw" THEN RawBad(E) ELSE IF E.ev = "raw_cc" THEN CCBad(E) ELSE IF E.ev = "raw_cn" THEN CNBad(E) ELSE PullBad(E) IN (k # "") => TLCSet(2, Append(TLCGet(2), <<l, k>>))
+        /\ LET k == IF E.ev = "raw" THEN RawBad(E) ELSE IF E.ev = "raw_cc" THEN CCBad(E) ELSE IF E.ev = "raw_cn" THEN CNBad(E) ELSE IF E.ev = "pull_released" THEN RelBad(E) ELSE PullBad(E) IN (k # "") => TLCSet(2, Append(TLCGet(2), <<l, k>>))
         /\ (Drift(E) # "") => TLCSet(3, Append(TLCGet(3), <<l, Drift(E)>>))
 Init == l = 1
 Spec == Init /\ [][Step]_l
